@@ -200,7 +200,7 @@ def lo_snp_scenario(rng, k, ns, length, nsites, tries=100):
     return None
 
 
-def lo_indel_scenario(rng, k, ns, length, nind, tries=100, tandem=False):
+def lo_indel_scenario(rng, k, ns, length, nind, tries=100, tandem=False, fixed_len=None):
     """ancestor + planted insertions/deletions (length 1..10 < k, >= 4k apart and from the ends), carrier sets"""
     for _ in range(tries):
         anc = gen.rand_seq(rng, length)
@@ -220,7 +220,7 @@ def lo_indel_scenario(rng, k, ns, length, nind, tries=100, tandem=False):
             continue
         inds = []
         for p in pos:
-            ln = rng.randint(1, min(10, k - 1))
+            ln = fixed_len or rng.randint(1, min(10, k - 1))
             kind = rng.choice(["ins", "del"])
             carriers = set(rng.sample(range(ns), rng.randint(1, ns - 1)))
             if tandem:
